@@ -293,7 +293,7 @@ theorem step_infix (env : Str → Option (CellArg N)) (op : Op) (opd' : List (Ar
     cases flush pend opd' with
     | error e => simp
     | ok o => simp [popLoop_stop _ _ _ ha]
-  simp only [parseToken, bind_ok, pure_eq_ok, isOp_infix, if_true, e1]
+  simp only [parseToken, parseTokenCore, bind_ok, pure_eq_ok, isOp_infix, if_true, e1]
   cases flush pend opd' with
   | error e => simp
   | ok o => simp [isOperand]
@@ -303,7 +303,7 @@ theorem step_neg (env : Str → Option (CellArg N)) (opd : List (Arg N)) (opt : 
     parseToken env (.prefixOp sMinus) (opd, opt) = .ok (opd, .prefixOp sMinus :: opt) := by
   have hm : (Tok.prefixOp sMinus).isPrefixMinus = true := by decide
   cases opt with
-  | nil => simp [parseToken, isOp_neg, parseOperatorPrefixToken, isOperand]
+  | nil => simp [parseToken, parseTokenCore, isOp_neg, parseOperatorPrefixToken, isOperand]
   | cons top rest =>
     have hlt := ha top rest rfl
     have htop : top.isPrefixMinus = false := by
@@ -316,34 +316,34 @@ theorem step_neg (env : Str → Option (CellArg N)) (opd : List (Arg N)) (opt : 
       have : prefixMinusPriority = 6 := by decide
       omega
     have h6 : getPriority (Tok.prefixOp sMinus) = prefixMinusPriority := by decide
-    simp [parseToken, isOp_neg, parseOperatorPrefixToken, htop, pushCmp_eq, h6, hgt, isOperand]
+    simp [parseToken, parseTokenCore, isOp_neg, parseOperatorPrefixToken, htop, pushCmp_eq, h6, hgt, isOperand]
 
 theorem step_neg_cancel (env : Str → Option (CellArg N)) (opd : List (Arg N)) (opt : List Tok) :
     parseToken env (.prefixOp sMinus) (opd, .prefixOp sMinus :: opt) = .ok (opd, opt) := by
   have hm : (Tok.prefixOp sMinus).isPrefixMinus = true := by decide
-  simp [parseToken, isOp_neg, parseOperatorPrefixToken, hm, isOperand]
+  simp [parseToken, parseTokenCore, isOp_neg, parseOperatorPrefixToken, hm, isOperand]
 
 theorem step_lpar (env : Str → Option (CellArg N)) (opd : List (Arg N)) (opt : List Tok) :
     parseToken env .lpar (opd, opt) = .ok (opd, .lpar :: opt) := by
   have h : isOperatorPrefixToken .lpar = false := by decide
-  simp [parseToken, h, isOperand]
+  simp [parseToken, parseTokenCore, h, isOperand]
 
 theorem step_rpar (env : Str → Option (CellArg N)) (opd' : List (Arg N)) (pend opt : List Tok) (p : Nat)
     (hp : Pend p pend) :
     parseToken env .rpar (opd', pend ++ .lpar :: opt) = flush pend opd' >>= fun o => .ok (o, opt) := by
   have h : isOperatorPrefixToken .rpar = false := by decide
-  simp [parseToken, h, isOperand, closeParen_pend _ _ _ p hp]
+  simp [parseToken, parseTokenCore, h, isOperand, closeParen_pend _ _ _ p hp]
 
 theorem step_pct (env : Str → Option (CellArg N)) (x : Arg N) (opd : List (Arg N)) (opt : List Tok) :
     parseToken env (.postfixOp [37]) (x :: opd, opt) = .ok (percent x :: opd, opt) := by
   have h : isOperatorPrefixToken (.postfixOp [37]) = false := by decide
-  simp [parseToken, h, isOperand, percent]
+  simp [parseToken, parseTokenCore, h, isOperand, percent]
 
 theorem step_operand (env : Str → Option (CellArg N)) (t : Tok) (ht : isOperand t = true)
     (opd : List (Arg N)) (opt : List Tok) :
     parseToken env t (opd, opt) = .ok (tokenToArg t :: opd, opt) := by
   cases t <;> simp [isOperand] at ht <;>
-    simp [parseToken, isOperatorPrefixToken, Tok.isPrefixMinus, isOperand]
+    simp [parseToken, parseTokenCore, isOperatorPrefixToken, Tok.isPrefixMinus, isOperand]
 
 theorem step_ref (env : Str → Option (CellArg N)) (k : Str) (opd : List (Arg N)) (opt : List Tok) :
     parseToken env (.ref k) (opd, opt) =
@@ -351,13 +351,77 @@ theorem step_ref (env : Str → Option (CellArg N)) (k : Str) (opd : List (Arg N
       | none => .error (.msg (.lit formulaErrorNAME))
       | some c => .ok (tokenToArg (argToTok c) :: opd, opt) := by
   cases h : env k with
-  | none => simp [parseToken, h]
+  | none => simp [parseToken, parseTokenCore, h]
   | some c =>
     cases c with
-    | num x b => cases b <;> simp [parseToken, h, argToTok, isOperatorPrefixToken, Tok.isPrefixMinus, isOperand]
-    | str s => simp [parseToken, h, argToTok, isOperatorPrefixToken, Tok.isPrefixMinus, isOperand]
-    | err m => simp [parseToken, h, argToTok, isOperatorPrefixToken, Tok.isPrefixMinus, isOperand]
-    | empty => simp [parseToken, h, argToTok, isOperatorPrefixToken, Tok.isPrefixMinus, isOperand]
+    | num x b => cases b <;> simp [parseToken, parseTokenCore, h, argToTok, isOperatorPrefixToken, Tok.isPrefixMinus, isOperand]
+    | str s => simp [parseToken, parseTokenCore, h, argToTok, isOperatorPrefixToken, Tok.isPrefixMinus, isOperand]
+    | err m => simp [parseToken, parseTokenCore, h, argToTok, isOperatorPrefixToken, Tok.isPrefixMinus, isOperand]
+    | empty => simp [parseToken, parseTokenCore, h, argToTok, isOperatorPrefixToken, Tok.isPrefixMinus, isOperand]
+
+/-! ### function calls: the macro token is the composition of the micro steps -/
+
+theorem runF_cons (env : Str → Option (CellArg N)) (t : Tok) (ts : List Tok) (s : FState N) :
+    runF env (t :: ts) s = stepF env t s >>= runF env ts := rfl
+
+theorem runF_append (env : Str → Option (CellArg N)) (a b : List Tok) (s : FState N) :
+    runF env (a ++ b) s = runF env a s >>= runF env b := by
+  induction a generalizing s with
+  | nil => rfl
+  | cons t r ih =>
+    simp only [List.cons_append, runF]
+    cases stepF env t s <;> simp [ih]
+
+theorem runF_expandArgs (env : Str → Option (CellArg N)) (name : Str) (args : List (List Str))
+    (acc : List (CellArg N)) (st : State N) (rest : List Tok) :
+    runF env (expandArgs args ++ rest) (st, some (name, acc)) =
+      match callArgs env args acc with
+      | .error e => .error e
+      | .ok cells => runF env rest (st, some (name, cells)) := by
+  induction args generalizing acc with
+  | nil => simp [expandArgs, callArgs]
+  | cons a tl ih =>
+    cases tl with
+    | nil =>
+      by_cases h : a = []
+      · simp [expandArgs, callArgs, runF, stepF, h]
+      · simp [expandArgs, callArgs, runF, stepF, h]
+    | cons b tl' =>
+      by_cases h : a = []
+      · simp [expandArgs, callArgs, runF, stepF, h]
+      · have := ih (acc ++ a.map (cellOf env))
+        simp only [expandArgs, List.cons_append, runF, stepF, h, if_false, bind_ok, pure_eq_ok] at this ⊢
+        rw [callArgs]
+        simp only [h, if_false]
+        exact this
+
+theorem runF_expandCall (env : Str → Option (CellArg N)) (name : Str) (args : List (List Str))
+    (opd : List (Arg N)) (opt : List Tok) (rest : List Tok) :
+    runF env (expandCall name args ++ rest) ((opd, opt), none) =
+      match callValue env name args with
+      | .error e => .error e
+      | .ok v => runF env rest ((v :: opd, opt), none) := by
+  unfold expandCall callValue
+  by_cases hn : name = [65, 82, 82, 65, 89] ∨ name = [65, 82, 82, 65, 89, 82, 79, 87]
+  · simp [runF, stepF, hn]
+  · simp only [List.cons_append, runF, stepF, hn, if_false, bind_ok, pure_eq_ok, List.append_assoc]
+    rw [runF_expandArgs]
+    cases callArgs env args [] with
+    | error e => rfl
+    | ok cells =>
+      simp only [List.singleton_append, runF, stepF]
+      cases hf : aggOfName name with
+      | none => simp
+      | some fn => cases ha : aggregate fn cells <;> simp [ha]
+
+theorem parseToken_call (env : Str → Option (CellArg N)) (name : Str) (args : List (List Str))
+    (opd : List (Arg N)) (opt : List Tok) :
+    parseToken env (.call name args) (opd, opt) =
+      (fun v => (v :: opd, opt)) <$> callValue env name args := by
+  have := runF_expandCall env name args opd opt []
+  simp only [List.append_nil] at this
+  simp only [parseToken, this]
+  cases callValue env name args <;> rfl
 
 /-! ### the compiler-correctness invariant -/
 
@@ -571,6 +635,15 @@ theorem main (env : Str → Option (CellArg N)) (e : Expr) : P env e ∧ Q env e
       have he : evalTree env (.neg (.neg e)) = evalTree env e := by simp [evalTree]
       rw [hr, he, run_cons, step_neg_cancel, bind_ok]
       exact (ih.1 6 opd opt (by omega) (ha.mono h6)).mono h6
+  | call n a =>
+    have hP : P env (.call n a) := by
+      intro p opd opt _ _
+      have he : evalTree env (.call n a) = callValue env n a := rfl
+      simp only [render, run_cons, parseToken_call, he]
+      cases callValue env n a with
+      | error e => simp [Post]
+      | ok v => simpa [run_nil] using Post.value p opd opt v
+    exact ⟨hP, Q_of_P env _ (by intro e' h; cases h) hP⟩
   | bin op l r ihl ihr =>
     have hP : P env (.bin op l r) := by
       intro p opd opt hp ha
@@ -639,5 +712,98 @@ theorem evalTokens_render (env : Str → Option (CellArg N)) (e : Expr) :
     subst e1
     simp only [bind_ok, hf]
     cases evalTree env e <;> simp
+
+/-! ### the flat (real) token stream -/
+
+def micro : Tok → Bool
+  | .fstart _ => true | .fstop => true | .argsep => true | .rangeArg _ _ => true
+  | _ => false
+
+theorem runF_flatten (env : Str → Option (CellArg N)) (ts : List Tok) (hm : ∀ t ∈ ts, micro t = false)
+    (st : State N) :
+    runF env (flatten ts) (st, none) = run env ts st >>= fun st' => .ok (st', none) := by
+  induction ts generalizing st with
+  | nil => rfl
+  | cons t rest ih =>
+    have hr : ∀ u ∈ rest, micro u = false := fun u hu => hm u (by simp [hu])
+    have ht := hm t (by simp)
+    obtain ⟨opd, opt⟩ := st
+    cases t with
+    | call n a =>
+      simp only [flatten, runF_expandCall, run_cons, parseToken_call]
+      cases callValue env n a with
+      | error e => rfl
+      | ok v => simpa using ih hr (v :: opd, opt)
+    | fstart n => simp [micro] at ht
+    | fstop => simp [micro] at ht
+    | argsep => simp [micro] at ht
+    | rangeArg c b => simp [micro] at ht
+    | _ =>
+      simp only [flatten, runF_cons, stepF, run_cons, parseToken]
+      cases parseTokenCore env _ (opd, opt) with
+      | error e => rfl
+      | ok st' => simpa using ih hr st'
+
+theorem wrap_mem (b : Bool) (ts : List Tok) (t : Tok) (h : t ∈ wrap b ts) :
+    t = .lpar ∨ t = .rpar ∨ t ∈ ts := by
+  cases b <;> simp [wrap] at h
+  · exact Or.inr (Or.inr h)
+  · rcases h with h | h | h
+    · exact Or.inl h
+    · exact Or.inr (Or.inr h)
+    · exact Or.inr (Or.inl h)
+
+theorem render_noMicro (p : Nat) (e : Expr) : ∀ t ∈ render p e, micro t = false := by
+  induction e generalizing p with
+  | neg e ih =>
+    intro t ht
+    simp only [render] at ht
+    rcases wrap_mem _ _ _ ht with h | h | h
+    · subst h; rfl
+    · subst h; rfl
+    · simp at h
+      rcases h with h | h
+      · subst h; rfl
+      · exact ih _ _ h
+  | pct e ih =>
+    intro t ht
+    simp only [render] at ht
+    rcases wrap_mem _ _ _ ht with h | h | h
+    · subst h; rfl
+    · subst h; rfl
+    · simp at h
+      rcases h with h | h
+      · exact ih _ _ h
+      · subst h; rfl
+  | bin op l r ihl ihr =>
+    intro t ht
+    simp only [render] at ht
+    rcases wrap_mem _ _ _ ht with h | h | h
+    · subst h; rfl
+    · subst h; rfl
+    · simp at h
+      rcases h with h | h | h
+      · exact ihl _ _ h
+      · subst h; rfl
+      · exact ihr _ _ h
+  | paren e ih =>
+    intro t ht
+    simp only [render] at ht
+    simp at ht
+    rcases ht with h | h | h
+    · subst h; rfl
+    · exact ih _ _ h
+    · subst h; rfl
+  | _ => intro t ht; simp [render] at ht; subst ht; rfl
+
+/-- `evalInfixExp` on the flat token stream of a formula with calls computes the tree -/
+theorem evalTokensF_render (env : Str → Option (CellArg N)) (e : Expr) :
+    evalTokensF env (flatten (render 1 e)) = evalTree env e := by
+  rw [← evalTokens_render env e]
+  unfold evalTokensF evalTokens
+  rw [runF_flatten env _ (render_noMicro 1 e)]
+  cases run env (render 1 e) ([], []) with
+  | error m => rfl
+  | ok s => obtain ⟨opd, opt⟩ := s; rfl
 
 end XlModel.Calc.Impl
